@@ -398,17 +398,28 @@ def r6_ensemble_copy(chk):
     ens = prog.cls("molli.chem.ensemble:ConformerEnsemble")
     init = prog.method(ens, "__init__")
     chk.analysed(init)
-    arm = None
-    for s in walk_no_nested(init.node):
-        if isinstance(s, ast.If) and norm(s.test) == "isinstance(other, ConformerEnsemble)":
-            arm = s
-    chk.require(arm is not None, "ConformerEnsemble.__init__: copy branch not found")
+    from ..canon import path_conditions
+
+    src = init.params()[1]
+    want_cond = f"isinstance({src}, ConformerEnsemble)"
+    # statements that run only when the source is an ensemble (if-test, case arm, guard clause - whichever spelling)
+    in_arm = [s for s in walk_no_nested(init.node) if isinstance(s, ast.Assign) and want_cond in [norm(c) for c in path_conditions(init.node, s)]]
+    chk.require(bool(in_arm), "ConformerEnsemble.__init__: copy branch not found")
+    arm = in_arm[0]
     for cont, acc in (("_coords", "coords"), ("_atomic_charges", "atomic_charges"), ("_weights", "weights")):
-        st = [s for s in arm.body if isinstance(s, ast.Assign) and ({f"self.{cont}", f"self.{acc}"} & stored_paths(s))]
-        ok = len(st) == 1 and (norm(st[0].value) in (f"np.array(other.{acc})", f"np.array(other.{cont})", f"other.{acc}.copy()", f"np.copy(other.{acc})")
-                               or (f"self.{acc}" in stored_paths(st[0]) and norm(st[0].value) in (f"other.{acc}",)))
-        chk.decide(ok, "C06.R6", f"{init.key}:copies-{cont}", init.where(st[0] if st else arm), f"{cont} = np.array(other.{acc})",
-                   f"the ensemble copy branch " + (f"assigns `{short(st[0], 60)}`: the array is shared with the source" if st else f"does not transfer {acc}"))
+        st = [s for s in in_arm if ({f"self.{cont}", f"self.{acc}"} & stored_paths(s))]
+        def copies(s_):
+            return norm(s_.value) in (f"np.array({src}.{acc})", f"np.array({src}.{cont})", f"{src}.{acc}.copy()", f"np.copy({src}.{acc})", f"np.array({src}.{acc}, copy=True)") \
+                or (f"self.{acc}" in stored_paths(s_) and norm(s_.value) in (f"{src}.{acc}",))
+
+        def allocates(s_):
+            return isinstance(s_.value, ast.Call) and (call_name(s_.value) or "").split(".")[-1] in ("full", "zeros", "ones", "empty") and src + "." + acc not in norm(s_.value) and src + "." + cont not in norm(s_.value)
+
+        # a fresh table may be allocated first; what is stored last must be a copy of the source's values
+        ok = bool(st) and copies(st[-1]) and all(copies(x) or allocates(x) for x in st)
+        takes = any(f"{src}.{acc}" in norm(x.value) or f"{src}.{cont}" in norm(x.value) for x in st)
+        chk.decide(ok, "C06.R6", f"{init.key}:copies-{cont}", init.where(st[-1] if st else arm), f"{cont} = np.array(other.{acc})",
+                   f"the ensemble copy branch " + (f"assigns `{short(st[-1], 60)}`: the array is shared with the source" if st and takes else f"does not transfer {acc}"))
 
 
 def r7_ctor_forwarding(chk):
